@@ -7,16 +7,22 @@ set -u
 ID=$1; PATCH=$(readlink -f "$2"); DEMO=$(readlink -f "$3"); shift 3
 WT=/tmp/seedcheck_$$
 git -C /repo worktree add -q --detach $WT HEAD || exit 2
-trap 'git -C /repo worktree remove --force $WT >/dev/null 2>&1; git -C /repo checkout -q -- . ' EXIT
+trap 'git -C /repo worktree remove --force $WT >/dev/null 2>&1; [ -n "${VIA_WORKTREE:-}" ] || git -C /repo checkout -q -- . ' EXIT
 cd $WT
 PYTHONPATH=$WT /venv/bin/python "$DEMO" >/dev/null 2>&1; echo "[$ID] demo on clean tree: exit $?"
 git apply "$PATCH" || { echo "[$ID] patch does not apply"; exit 0; }
 PYTHONPATH=$WT /venv/bin/python "$DEMO" >/dev/null 2>&1; echo "[$ID] demo on patched tree: exit $?"
 echo "[$ID] suite on patched tree: $(/venv/bin/python -m pytest -q -p no:cacheprovider --timeout=900 --continue-on-collection-errors 2>&1 | tail -1)"
 cd /verif
-git -C /repo apply "$PATCH" || { echo "[$ID] patch does not apply to /repo"; exit 0; }
+if [ -n "${VIA_WORKTREE:-}" ]; then
+  # while a long run uses /repo: run the checks against the patched scratch worktree instead (ABMARL_REPO);
+  # tools/recheck_seeded.sh later repeats the run with the patch applied to /repo itself
+  export ABMARL_REPO=$WT VERIF_NO_EVIDENCE=1
+else
+  git -C /repo apply "$PATCH" || { echo "[$ID] patch does not apply to /repo"; exit 0; }
+fi
 for c in "$@"; do
   out=$(./check $c --tier ${TIER:-quick} 2>&1); rc=$?
   echo "[$ID] check $c: rc=$rc $(echo "$out" | grep '^VIOLATION' | head -2 | tr '\n' ' ') :: $(echo "$out" | tail -1)"
 done
-git -C /repo checkout -q -- .
+[ -n "${VIA_WORKTREE:-}" ] || git -C /repo checkout -q -- .
